@@ -102,6 +102,8 @@ func c12Decoy(r *rand.Rand) string {
 		"<!-- plain comment -->",
 		"\n  ",
 		"<base href=\"/\">",
+		"<meta name=\"description\" content=\"How to declare the charset of a page\">",
+		"<meta name=\"keywords\" content=\"charset; charset , charset\">",
 	}
 	return d[r.Intn(len(d))]
 }
